@@ -58,7 +58,7 @@ BUDGET = {
 REQUIRED = dict(
     monitors=['prior-callback', 'loglike-equals-gaussian', 'callback-never-raises', 'invalid-never-finite',
               'same-vector-same-value', 'sampled-space-order', 'ndim-handed-to-sampler'],
-    classes=['width-kind:3', 'bins:two-share-a-centre', 'sampler:nestle', 'sampler:multinest', 'sampler:polychord',
+    classes=['width-kind:3', 'bins:two-share-a-centre', 'callback-argument:one-buffer-refilled-in-place', 'callback-argument:fresh-per-point', 'sampler:nestle', 'sampler:multinest', 'sampler:polychord',
              'prior:mode-linear', 'prior:mode-log', 'prior:Uniform', 'prior:LogUniform', 'prior:Gaussian',
              'prior:LogGaussian', 'cube:interior', 'cube:face', 'cube:corner',
              'invalid:chem>1', 'invalid:inverted-nodes', 'invalid:guillot',
@@ -265,15 +265,17 @@ def run_sampler(ctx, sampler, obs, model, decls, script, tag, rng, keep=None):
         L.apply_prior(opt, d)
     if keep is not None:
         keep['opt'] = opt
-    return drive(ctx, opt, sampler, decls, script)
+    return drive(ctx, opt, sampler, decls, script, reuse_buffers=rng.random() < 0.5)
 
 
-def drive(ctx, opt, sampler, decls, script):
+def drive(ctx, opt, sampler, decls, script, reuse_buffers=False):
     """Compile and run the (possibly re-used) optimizer; returns the recorded sampler call."""
     Rr = _rec['R']
     Rr.reset()
     Rr.script = script
     Rr.design = trivial_design(decls)
+    Rr.reuse_buffers = bool(reuse_buffers)
+    ctx.observe('callback-argument:' + ('one-buffer-refilled-in-place' if reuse_buffers else 'fresh-per-point'))
     opt.compile_params()
     want_names = [('log_' + d['name']) if d['space'] == 'log' else d['name'] for d in decls]
     ok = ctx.check('sampled-space-order', list(opt.fit_names) == want_names, got=list(opt.fit_names), want=want_names)
@@ -598,7 +600,7 @@ def wl_reuse(ctx, rng):
             ctx.observe('reuse:settings-changed')
         steps.append(what)
         script, metas = _short_script(rng, decls, obs)
-        call = drive(ctx, opt, sampler, decls, script)
+        call = drive(ctx, opt, sampler, decls, script, reuse_buffers=rng.random() < 0.5)
         if call is None:
             return
         judge(ctx, sampler, spec, decls, layout, y, sigma, script, metas, call, obs)
@@ -649,7 +651,7 @@ def wl_pair(ctx, rng):
     for t in turns:
         sd = sides[t]
         script, metas = _short_script(rng, sd['decls'], sd['obs'])
-        call = drive(ctx, sd['opt'], sd['sampler'], sd['decls'], script)
+        call = drive(ctx, sd['opt'], sd['sampler'], sd['decls'], script, reuse_buffers=rng.random() < 0.5)
         if call is None:
             return
         judge(ctx, sd['sampler'], spec, sd['decls'], sd['layout'], sd['y'], sd['sigma'], script, metas, call, sd['obs'])
